@@ -19,7 +19,15 @@ pub(crate) fn duration_to_instant(duration: Duration) -> Instant {
 }
 
 /// A helper to get the current time as a `Duration` since the epoch.
+#[cfg(not(excsn_fibre_verif))]
 #[inline]
 pub(crate) fn now_duration() -> Duration {
   instant_to_duration(Instant::now())
+}
+
+/// Verification build: the clock is a value the harness sets (see `crate::__verif`).
+#[cfg(excsn_fibre_verif)]
+#[inline]
+pub(crate) fn now_duration() -> Duration {
+  crate::__verif::now()
 }
